@@ -18,6 +18,12 @@ class Boom(Exception):
     pass
 
 
+class Halt(BaseException):
+    """what the memoized function raises for odd argument numbers: an exception that is NOT an `Exception` (as KeyboardInterrupt, SystemExit,
+    GeneratorExit are) - it passes through like any other, and what the wrapper set up for the call is taken down again"""
+    pass
+
+
 ROOT_CAUSE = ValueError('the root cause of every Boom raised by the memoized function')
 
 
@@ -220,7 +226,7 @@ def fun(x):
         if isinstance(xx, int) and xx >= 2:
             rec['call'](xx - 1); rec['call'](xx - 2)
     if xx in _CUR['keyerr']: raise KeyError(xx)
-    if xx in _CUR['raising']: raise Boom(xx) from ROOT_CAUSE        # (explicitly chained: what arrives must still say so)
+    if xx in _CUR['raising']: raise (Halt if xx % 2 else Boom)(xx) from ROOT_CAUSE        # (explicitly chained: what arrives must still say so)
     return value_of(xx)
 
 
@@ -409,7 +415,7 @@ class Runner:
             outs.append('archived=%r' % bool(h.archived()))
             for x in seq:
                 try: outs.append(repr(h(self.A(x))))
-                except Exception as e: outs.append(type(e).__name__)
+                except (Exception, Halt) as e: outs.append(type(e).__name__)
             snap = self.snapshot(h)
             return outs, snap['mem'], snap['arch'], snap['stats']
         try:
@@ -458,9 +464,9 @@ class Runner:
             def run_call():
                 try:
                     return {'ret': self.V(f(*args))}
-                except Exception as e:
+                except (Exception, Halt) as e:
                     o = {'exc': exc_name(e)}
-                    if isinstance(e, Boom) and not (e.__cause__ is ROOT_CAUSE and e.__suppress_context__ is True and isinstance(e.args[0], int)):
+                    if isinstance(e, (Boom, Halt)) and not (e.__cause__ is ROOT_CAUSE and e.__suppress_context__ is True and isinstance(e.args[0], int)):
                         o['altered'] = 'cause=%r suppress_context=%r args=%r' % (e.__cause__, e.__suppress_context__, e.args)
                     return o
             try:
@@ -572,7 +578,7 @@ def run_recursive_trace(cfg, tops):
             key, rawk = R.keyin(args)
             try:
                 out = {'ret': R.V(R.f(*args))}
-            except Exception as e:
+            except (Exception, Halt) as e:
                 out = {'exc': exc_name(e)}
             stack.pop()
             out['evals'] = 1 if frame['ran'] else 0
